@@ -89,8 +89,8 @@ def replay_discovery(imports, runs=40):
         shutil.rmtree(d, ignore_errors=True)
 
 # ----------------------------------------------------------------------------- C16: topological sort
-def ob_topo(r, tier, seed, pkgs, extra=('Zmissing',), self_imports=True):
-    W = e2.fresh_world(CRATES); W.hash_order = 'symbolic'
+def ob_topo(r, tier, seed, pkgs, extra=('Zmissing',), self_imports=True, hash_order='symbolic'):
+    W = e2.fresh_world(CRATES); W.hash_order = hash_order
     names = ['Main'] + pkgs; extra = list(extra)
     edge = {(p, q): z3.Bool('e_%s_%s' % (p, q)) for p in names for q in names + extra if p != q or self_imports}
     def ov(f, g):
@@ -100,7 +100,7 @@ def ob_topo(r, tier, seed, pkgs, extra=('Zmissing',), self_imports=True):
         return None
     W.overrides = [ov]; W.stubs['compile_error'] = lambda ex, a: Opaque('CompilationError')
     PG = W.tt.find_adt(['pipeline', 'packages', 'PackageGraph'], 'compiler')
-    r.bounds = 'all %d import graphs over packages %s plus missing import targets %s%s; every iteration order of the std hash containers' % (2 ** len(edge), names, extra, ' and self-imports' if self_imports else '')
+    r.bounds = 'all %d import graphs over packages %s plus missing import targets %s%s; %s' % (2 ** len(edge), names, extra, ' and self-imports' if self_imports else '', 'every iteration order of the std hash containers' if hash_order == 'symbolic' else 'hash containers iterate in insertion order')
     r.assumptions = ['compile_error (message formatting) stubbed', 'oracle: reference DFS - Err iff a cycle or a missing package is reachable from some package; Ok order must be a complete topological order']
     def entry(ex):
         imports = symbolic_graph(ex, names, extra, edge)
